@@ -88,7 +88,7 @@ class Nest(Doc):
 
     def __init__(self, indent, doc):
         assert isinstance(indent, int)
-        assert isinstance(doc, Doc)
+        assert isinstance(doc, (Doc, str))
 
         self.indent = indent
         self.doc = doc
@@ -186,7 +186,7 @@ class Group(Doc):
     __slots__ = ('doc', )
 
     def __init__(self, doc):
-        assert isinstance(doc, Doc)
+        assert isinstance(doc, (Doc, str))
         self.doc = doc
 
     def normalize(self):
@@ -208,7 +208,7 @@ class AlwaysBreak(Doc):
     __slots__ = ('doc', )
 
     def __init__(self, doc):
-        assert isinstance(doc, Doc)
+        assert isinstance(doc, (Doc, str))
         self.doc = doc
 
     def normalize(self):
